@@ -14,17 +14,6 @@
 
 //go:build verif
 
-package doltdb
+package dsess
 
 // Property-level lemmas (ghost code). Each is verified from the contracts of the functions it calls.
-
-func verif_lemma_c28_generated_values_increase(s AutoIncrementState) {
-	v1, ok1, s1, _ := s.Next()
-	v2, ok2, s2, _ := s1.Next()
-	if ok1 && ok2 {
-		verif_assert(v2 == v1+1 && v2 > v1)
-		verif_assert(s2.GreaterThan(s1) && s1.GreaterThan(s))
-		// merging with an older state never moves the sequence backwards
-		verif_assert(s2.Merge(s) == s2 && s.Merge(s2) == s2)
-	}
-}
